@@ -14,6 +14,7 @@ from ._fields import BaseAttributes, BaseInputs, BaseOutputs
 from ._node import Node, OpType
 from ._scope import Scope
 from ._shape import SimpleShape
+from . import _type_system
 from ._type_system import Tensor, Type
 from ._value_prop import PropValueType
 from ._var import Var
@@ -166,6 +167,9 @@ class _Introduce(_InternalNode):
 
     @property
     def opset_req(self) -> Set[Tuple[str, int]]:
+        # The renaming Identity accepts optional types only from opset 16 on
+        if any(isinstance(arr.type, _type_system.Optional) for arr in self.inputs.inputs):
+            return {("", max(INTERNAL_MIN_OPSET, 16))}
         return {("", INTERNAL_MIN_OPSET)}
 
     def to_onnx(
